@@ -996,7 +996,9 @@ def result_targets():
               calls=[(r'^ctor\|(nano::tensor1d_t|nano::tensor_t<nano::tensor_vector_storage_t, double, 1>)\|void \((const )?(long|nano::tensor_size_t)', 'nv_vals_new({0})'),
                      (r'^operator\(\)\|[^|]*\|[^|]*tensor_vector_storage_t, double, 1', '(*nv_vals_at({&0}, {1}))')],
               members=[(r'^size\|.*tensor_range_t', '({self}->m_end - {self}->m_begin)'), (r'^begin\|.*tensor_range_t', '({self}->m_begin)'),
-                       (r'^end\|.*tensor_range_t', '({self}->m_end)'), (r'^value\|.*result_t', 'nv_result_value3({self}, {0}, {1}, {2})')])
+                       (r'^end\|.*tensor_range_t', '({self}->m_end)'), (r'^value\|.*result_t', 'nv_result_value3({self}, {0}, {1}, {2})')],
+              # a defaulted selector is not the caller's selector: printed as a value no enumerator has
+              hooks=[lambda P, n: '(-1)' if n.get('kind') == 'CXXDefaultArgExpr' else None])
     return [Target('optimum_trial', [opt], H_R, cbmc_flags=CADICAL), Target('closest_trial', [clo], H_R, cbmc_flags=CADICAL),
             Target('values', [vals], H_R, cbmc_flags=CADICAL)]
 
@@ -1227,7 +1229,7 @@ def replay(rp):
     import replaylib
     out = {'reproduced': False, 'runs': []}
     tgt = rp.get('target', '')
-    which = 'result' if ('result' in tgt or 'tune::' in tgt or '_trial' in tgt) else 'tuner'
+    which = 'result' if any(k in tgt for k in ('result', 'tune::', '_trial', 'ml::', 'values')) else 'tuner'
     exe = replaylib.build_with_library('replay/C13_replay.cpp', 'C13_replay')
     rc, so, se = replaylib.run_driver(exe, [which], timeout=600)
     out['runs'].append({'which': which, 'exit': rc, 'output': so.strip()[-3000:]})
